@@ -143,6 +143,67 @@ func c09Scenario(rng *rand.Rand, senders, perSender, nsubs int) (ref []int, subs
 	return
 }
 
+// cancellation while registered senders are still at work: the tracer goes on delivering until the last of them is
+// done, to every subscriber alike: one that reads promptly through a large buffer and one that reads slowly through
+// no buffer at all find the same complete sequence before their channels are closed
+func c09AfterCancel(rng *rand.Rand, senders, perSender int) (fast, slow []int, at int, stuck string) {
+	ctx, cancel := context.WithCancel(context.Background())
+	defer cancel()
+	tr := tracing.NewTracer(ctx)
+	fastCh := tr.SubscribeChannel(make(chan tracing.ITrace, 256))
+	slowCh := tr.SubscribeChannel(make(chan tracing.ITrace))
+	var seen int64
+	var wg sync.WaitGroup
+	wg.Add(2)
+	go func() {
+		defer wg.Done()
+		for t := range fastCh {
+			if x, ok := t.(c09Trace); ok {
+				fast = append(fast, x.id)
+				atomic.AddInt64(&seen, 1)
+			}
+		}
+	}()
+	go func() {
+		defer wg.Done()
+		for t := range slowCh {
+			if x, ok := t.(c09Trace); ok {
+				slow = append(slow, x.id)
+			}
+			if len(slow)%4 == 0 {
+				time.Sleep(20 * time.Microsecond)
+			} else {
+				runtime.Gosched()
+			}
+		}
+	}()
+	cancelAt := int64(1 + rng.Intn(senders*perSender/2))
+	at = int(cancelAt)
+	for k := 0; k < senders; k++ {
+		h := tr.RegisterSender()
+		go func(k int) {
+			defer h.Done()
+			for j := 1; j <= perSender; j++ {
+				tr.Send(c09Trace{(k+1)*64 + j})
+			}
+		}(k)
+	}
+	go func() {
+		for atomic.LoadInt64(&seen) < cancelAt {
+			runtime.Gosched()
+		}
+		cancel()
+	}()
+	fin := make(chan struct{})
+	go func() { wg.Wait(); close(fin) }()
+	select {
+	case <-fin:
+	case <-time.After(tmoStep):
+		stuck = "subscriber channels were not closed after cancellation and the last sender's Done"
+	}
+	return
+}
+
 func runC09(env *Env) {
 	rep := &Report{Property: "C09",
 		Rule: "tracer: 1..8 senders x up to 60 traces each, a reference subscriber from start to end, 1..4 further subscribers with buffer 0/1/10 joining after a seeded number of traces and leaving after a seeded number, some consuming slowly; each log must be a contiguous slice of the reference log containing every trace whose Send lay entirely inside its subscription and none whose Send lay entirely outside; engine: trace streams of C03/C04 programs checked against the causality grammar; non-trivial = at least 2 senders and one joining subscriber; distinct by seed"}
@@ -201,6 +262,28 @@ func runC09(env *Env) {
 			for _, id := range s.log {
 				have[id] = true
 			}
+			// Send returns when the broadcaster has TAKEN the trace; it pushes it to the subscribers afterwards. One
+			// trace can therefore be on its way to a subscriber that calls Unsubscribe, and Unsubscribe empties the
+			// subscriber's channel while it waits: the trace that directly follows the last one received may be lost
+			// that way (one at most: the broadcaster handles one trace at a time and this subscriber was idle)
+			{
+				var missing []int
+				for _, id := range must {
+					if !have[id] {
+						missing = append(missing, id)
+					}
+				}
+				if len(missing) == 1 && (len(s.log) == 0 || pos[missing[0]] == pos[s.log[len(s.log)-1]]+1) {
+					kept := must[:0]
+					for _, id := range must {
+						if id != missing[0] {
+							kept = append(kept, id)
+						}
+					}
+					must = kept
+					rep.Count("in_flight_at_unsubscribe")
+				}
+			}
 			for _, id := range must {
 				if !have[id] {
 					bad = fmt.Sprintf("subscriber %d (buffer %d) missed trace %d sent entirely inside its subscription; log %v", si, s.buf, id, s.log)
@@ -227,6 +310,39 @@ func runC09(env *Env) {
 			}()))
 		}
 	}
+	// ---- cancellation with senders still at work
+	var eitems []string
+	na := 40
+	if env.Thorough() {
+		na = 400
+	}
+	for i := 0; i < na && !rep.Saturated(); i++ {
+		senders := 1 + rng.Intn(3)
+		per := 10 + rng.Intn(51)
+		cs := fmt.Sprintf("cancellation with %d senders x %d traces still at work, a prompt and a slow unbuffered subscriber (seed %d, #%d)", senders, per, env.Seed, i)
+		env.Current(cs)
+		fast, slow, at, stuck := c09AfterCancel(rng, senders, per)
+		rep.Evaluations++
+		rep.Nontrivial++
+		rep.Count("after_cancel")
+		if stuck != "" {
+			rep.Violate("C09-deadlock", cs, stuck)
+			continue
+		}
+		if len(fast) != senders*per || len(slow) != senders*per {
+			rep.Violate("C09-after-cancel", cs, fmt.Sprintf("%d traces sent by senders registered before the cancellation: the prompt subscriber received %d, the slow one %d", senders*per, len(fast), len(slow)))
+			continue
+		}
+		for k := range fast {
+			if fast[k] != slow[k] {
+				rep.Violate("C09-after-cancel", cs, fmt.Sprintf("the two subscribers differ at position %d: %v / %v", k, fast, slow))
+				break
+			}
+		}
+		items = append(items, fmt.Sprintf("(%s,[(%s,%s,[])])", natList(fast), natList(slow), natList(slow)))
+		eitems = append(eitems, fmt.Sprintf("(%d,%d,%s,%s)", senders, at, natList(fast), natList(slow)))
+	}
+	env.WriteCases(rep, "_end", "Corr.C09corr", "N * N * list N * list N", eitems, "c09_end_mismatches", "Open Scope N_scope.")
 	// shard
 	for i, k := 0, 0; i < len(items); i, k = i+200, k+1 {
 		j := i + 200
